@@ -167,3 +167,62 @@ class SpecReader:
                     for cid, pos, size in chunks:
                         out.append((name, mini, cid, size))
         return out
+
+
+def build_shard(chunks, minishard_bits, route_minishard, layout="reversed"):
+    """An independent WRITER for one shard file (raw encodings): `chunks`
+    maps chunk id -> bytes, `route_minishard(id)` gives the minishard number.
+    The format fixes the shard index at the start of the file and the
+    encoding of each minishard index, but neither the order nor the place of
+    the minishard indices and of the chunk data. Layouts:
+      "reversed"      indices of all used minishards first, highest minishard
+                      first, then the chunk data, highest minishard first
+      "interleaved"   per minishard (highest first): its index, then its data
+      "data-first"    chunk data (lowest first), then indices highest first
+    """
+    n_mini = 1 << minishard_bits
+    idx_len = 16 * n_mini
+    by_m = {}
+    for cid in sorted(chunks):
+        by_m.setdefault(route_minishard(cid), []).append(cid)
+    used = sorted(by_m, reverse=True)
+    sizes = {m: 24 * len(by_m[m]) for m in used}
+    # decide positions (relative to the end of the shard index)
+    pos = 0
+    index_at, data_at = {}, {}
+    if layout == "reversed":
+        for m in used:
+            index_at[m] = pos
+            pos += sizes[m]
+        for m in used:
+            data_at[m] = pos
+            pos += sum(len(chunks[c]) for c in by_m[m])
+    elif layout == "interleaved":
+        for m in used:
+            index_at[m] = pos
+            pos += sizes[m]
+            data_at[m] = pos
+            pos += sum(len(chunks[c]) for c in by_m[m])
+    else:
+        for m in sorted(by_m):
+            data_at[m] = pos
+            pos += sum(len(chunks[c]) for c in by_m[m])
+        for m in used:
+            index_at[m] = pos
+            pos += sizes[m]
+    body = bytearray(pos)
+    entries = [0] * (2 * n_mini)
+    for m in used:
+        ids = by_m[m]
+        d_ids = [ids[0]] + [b - a for a, b in zip(ids, ids[1:])]
+        offs = [data_at[m]] + [0] * (len(ids) - 1)   # data is contiguous
+        lens = [len(chunks[c]) for c in ids]
+        raw = struct.pack("<%dQ" % (3 * len(ids)), *(d_ids + offs + lens))
+        body[index_at[m]:index_at[m] + len(raw)] = raw
+        p = data_at[m]
+        for c in ids:
+            body[p:p + len(chunks[c])] = chunks[c]
+            p += len(chunks[c])
+        entries[2 * m], entries[2 * m + 1] = index_at[m], \
+            index_at[m] + len(raw)
+    return struct.pack("<%dQ" % (2 * n_mini), *entries) + bytes(body)
